@@ -22,6 +22,15 @@ def run(ctx):
     exhaustive = ctx.tlc_gen("MC_Persist", gen(edgeids="{}", labels="LS1", **small), "nodes-all", workers=WORKERS, timeout=1800)
     exhaustive += ctx.tlc_gen("MC_Persist", gen(nodeids="{}", edgeids="{1, 2}", seedmain="TRUE", **small), "rels-all", workers=WORKERS,
                               timeout=1800)
+    # UN-sampled, one replicated stream for SIBLING tenants: every sequence of <= 3 requests over {CreateNode, UpdateNode,
+    # DeleteNode} x tenants {t1, t10} x ids {1,2} (t10's id extends t1's; it also starts with a node and a relationship of its
+    # own), then shutdown and recovery of BOTH tenants, each judged against its own graph (thorough: also relationships)
+    sib = dict(crash="FALSE", invs=INVS, maxops=3, maxhist=6, tenants='{"t1", "t10"}', optenants='{"t1", "t10"}', createvals="{1}",
+               view="", emit="ACTION_CONSTRAINT EmitRec")
+    exhaustive += ctx.tlc_gen("MC_Persist", gen(edgeids="{}", labels="LS1", **sib), "siblings-nodes", workers=WORKERS, timeout=1800)
+    if not q:
+        exhaustive += ctx.tlc_gen("MC_Persist", gen(nodeids="{}", edgeids="{1, 2}", seedmain="TRUE", **sib), "siblings-rels",
+                                  workers=WORKERS, timeout=1800)
     # every request sequence of <= 2 (quick) / <= 3 requests over the full alphabet (requests incl. relationships to
     # missing nodes, deletions of absent ids, updates of absent ids), each followed by shutdown + recovery
     scripts = ctx.tlc_gen("MC_Persist", gen(crash="FALSE", invs=INVS, maxops=2, maxhist=5, labels="LS2", view="",
@@ -47,7 +56,9 @@ def run(ctx):
                and not any(st["op"] in ("Restart", "Recover", "Crash") for st in s[1:-2])]
     ctx.assume("replayed without sampling: all sequences of <= 3 (quick) / <= 4 requests over {create, delete, update} x node ids {1,2}, "
                "and the same over relationship ids {1,2} between two given nodes; the other families are seeded samples",
-               "one tenant; node ids {1,2}, one relationship id, label lists [], [A], [A,B]; property maps {} or {k: v}; an update carries "
+               "also un-sampled: all sequences of <= 3 node requests addressed to tenants t1 and t10 in one stream (t10 holds a node and "
+               "a relationship from the start); after the restart every registered tenant is recovered and judged against its own graph",
+               "the other families: one tenant; node ids {1,2}, one relationship id, label lists [], [A], [A,B]; property maps {} or {k: v}; an update carries "
                "the full map {k: v} (replace = merge)",
                "a request answered with an error must have no effect, one answered without error must have its effect; whether a "
                "relationship to a missing node is accepted is left open (its answer decides), as long as every replica decides alike",
